@@ -288,9 +288,16 @@ class Gen:
             # two statements on one line: the documentation trailing the line belongs to the last of them
             a, b = self.nm("d"), self.nm("d")
             doc = f"doc text {self.nm('k')} trailing two statements"
-            L.append(f"  integer :: {a}; real :: {b} {self.r2.choice(['!!', '!<'])} {doc}")
-            for n, t, dc in ((a, "integer", None), (b, "real", doc)):
-                self.decls.append({"name": n, "type": t, "selector": "", "attrs": set(), "dim": None, "value": None, "doc": dc,
+            if self.r2.random() < 0.5:
+                # the first statement keeps the text of its character literal
+                val = self.r2.choice(['"p;q"', "'a!b'", '"xyz"', "'it''s; ok'"])
+                L.append(f"  character(len=9), parameter :: {a} = {val}; real :: {b} {self.r2.choice(['!!', '!<'])} {doc}")
+                first = (a, "character", "(len=9)", {"parameter"}, val)
+            else:
+                L.append(f"  integer :: {a}; real :: {b} {self.r2.choice(['!!', '!<'])} {doc}")
+                first = (a, "integer", "", set(), None)
+            for n, t, sel, at, vl, dc in (first + (None,), (b, "real", "", set(), None, doc)):
+                self.decls.append({"name": n, "type": t, "selector": sel, "attrs": at, "dim": None, "value": vl, "doc": dc,
                                    "doc2": None, "line": len(L) - 1})
         L.append("contains")
         L.append("  integer function fx(i, j)")
